@@ -575,6 +575,58 @@ def run(chk):
     rule_enum_values(chk)
     rule_enum_sequence(chk)
     rule_array_dimension(chk)
+    rule_template_value_lookup(chk)
+
+
+def rule_template_value_lookup(chk):
+    """FunctionRegistry::find_instantiation read on a model registry (instantiations f<-1>, f<2u>, f<T4> of template 0
+    and g<-2> of another template): a call finds an existing instantiation exactly when its template arguments are the
+    same constants (kind and value) or the same types - a non-type argument is a compile-time constant of the body, so
+    reusing the instantiation made for another value (or for the same digits of another type) evaluates the body's
+    constant expressions with the wrong constant."""
+    import interp as I
+    f = chk.facts
+    fn = f.fn("find_instantiation", "rssl_ir")
+    if not fn:
+        chk.note("C13.template-args: FunctionRegistry::find_instantiation not found; not decided")
+        return
+    opt = lambda v: I.Enum("Option", "None") if v is None else I.Enum("Option", "Some", {"0": v})
+    fid = lambda n: I.Enum("FunctionId", None, {"0": n})
+    const = lambda k, v: I.Enum("TypeOrConstant", "Constant", {"0": I.Enum("RestrictedConstant", k, {"0": v})})
+    typ = lambda n: I.Enum("TypeOrConstant", "Type", {"0": I.Enum("TypeId", None, {"0": n})})
+    inst = {1: (0, [const("Int32", -1)]), 2: (0, [const("UInt32", 2)]), 3: (0, [typ(4)]), 4: (9, [const("Int32", -2)])}
+
+    def deref(v):
+        return v.get() if isinstance(v, I.Ref) else v
+
+    def data(a):
+        i = deref(a[1]).fields["0"]
+        if i in inst:
+            return opt(I.Enum("FunctionTemplateInstantiation", None, {"parent_id": fid(inst[i][0]), "template_args": list(inst[i][1])}))
+        return opt(None)
+    ext = {"FunctionRegistry::get_function_count": lambda a: 6, "FunctionRegistry::get_template_instantiation_data": data}
+    queries = [("f<-1>", [const("Int32", -1)], 1), ("f<-2>", [const("Int32", -2)], None), ("f<-3>", [const("Int32", -3)], None), ("f<2u>", [const("UInt32", 2)], 2),
+               ("f<2> (untyped literal)", [const("IntLiteral", 2)], None), ("f<(int)2>", [const("Int32", 2)], None), ("f<3u>", [const("UInt32", 3)], None), ("f<true>", [const("Bool", True)], None),
+               ("f<T4>", [typ(4)], 3), ("f<T5>", [typ(5)], None), ("f<>", [], None), ("f<-1, -1>", [const("Int32", -1), const("Int32", -1)], None)]
+    bad = None
+    n = 0
+    for name, args, want in queries:
+        try:
+            r = I.Interp(f, max_depth=6, extern=ext).apply(fn, [I.Enum("FunctionRegistry", None, {}), fid(0), list(args)])
+        except I.Unknown as e:
+            if "panicking" in str(e):
+                bad = bad or "find_instantiation aborts on %s (%s)" % (name, str(e)[:60])
+                n += 1
+                continue
+            chk.unreadable("C13.template-args/lookup", "FunctionRegistry::find_instantiation on a model registry", str(e)[:100], where(fn))
+            return
+        n += 1
+        got = r.fields["0"].fields["0"] if isinstance(r, I.Enum) and r.variant == "Some" else None
+        if got != want and bad is None:
+            shown = {1: "f<-1>", 2: "f<2u>", 3: "f<T4>", 4: "g<-2> (another template)"}
+            bad = "with instantiations f<-1>, f<2u>, f<T4> made, the call %s %s; it must %s: inside the body the template parameter is a constant, and it would have the other call's value or type" % (
+                name, "reuses " + shown.get(got, str(got)) if got is not None else "finds no instantiation", "reuse " + shown[want] if want is not None else "get an instantiation of its own")
+    chk.ob("C13.template-args/lookup", bad is None, bad or "%d lookups: an instantiation is reused exactly for the same constants (kind and value) and types" % n, where(fn), sample={"lookups": n})
 
 
 def outer_match(fn, adt):
